@@ -12,13 +12,13 @@ from ..ref import sqf_interp as I
 PROPERTY = "C15"
 LEVEL = "model_checking"
 VARIANTS = ["asan", "fast"]
-RULE = ("histories of 1-2 loaded config files: quick = one file of <=2 top-level items (class A/B/C with optional base and one of 12 bodies, forward "
+RULE = ("histories of 1-2 loaded config files: quick = one file of <=2 top-level items (class A/B/C with optional base and one of 13 bodies, forward "
         "declarations); thorough adds 3-item files and two-file histories (2+1 items) over a reduced alphabet (4 bodies) and 1+1 items over the full one; states = distinct reference trees reached, transitions = file loads; for each state all "
         "queries (>> paths x entry names x accessors, inheritsFrom, configHierarchy, count/select) are compared; non-trivial = tree has a base link "
         "or a re-opened class")
 ASSUMPTIONS = [
     "outside the alphabet (not fixed by the statement): base classes that are only reachable through inheritance of the enclosing class, "
-    "re-opening a class with a different base, count/select on a class that contains `delete`, the printed name of the root, `+=` on an "
+    "re-opening a class with a different base, the position (not the presence) of an entry that is defined again after a `delete`, the printed name of the root, `+=` on an "
     "entry the class defines itself, letter case of entry names",
     "a class whose base cannot be resolved, or that names itself (directly or through a cycle) as base, must not make any lookup diverge; its "
     "content is then only judged for own entries",
@@ -39,6 +39,8 @@ BODIES = {
     "num-neg": "x = -1.5; big = 100000;",
     "str-esc": 'y = "a""b"; t = "x y";',
     "arr-nested": "arr[] = {{1, 2}, {}, {{3}}};",
+    # entry names that begin like the keywords
+    "kw-names": "class_x = 1; delete1 = 2; classes = 3; class class1 { deleted = 4; };",
 }
 NAMES = ["A", "B", "C"]
 
@@ -288,7 +290,7 @@ def canon(node, depth=0):
 
 
 PATHS = [["A"], ["B"], ["C"], ["A", "In"], ["B", "In"], ["C", "In"], ["A", "In2"], ["B", "In2"], ["A", "Nope"]]
-ENTRIES = ["x", "y", "z", "w", "q", "arr", "big", "t", "In", "missing"]
+ENTRIES = ["x", "y", "z", "w", "q", "arr", "big", "t", "In", "missing", "class_x", "delete1", "classes", "class1"]
 
 
 def sqf_path(p):
@@ -339,9 +341,9 @@ def queries(root):
             qs.append(("count " + ">>".join(p), "count (%s)" % sqf_path(p), float(len(node.order))))
             for i, nm in enumerate(node.order):
                 qs.append(("select %d %s" % (i, ">>".join(p)), "configName ((%s) select %d)" % (sqf_path(p), i), nm))
-        elif not node.deleted:
-            # every deleted name was defined again later: what the class holds is unambiguous, only the slot of a
-            # re-defined entry is not (first or second declaration) - the enumeration is compared as a set
+        else:
+            # a `delete` directive is no entry: it is neither counted nor selected. Where a deleted name is defined again
+            # its slot is not fixed (first or second declaration) - the enumeration is compared as a set
             qs.append(("count " + ">>".join(p), "count (%s)" % sqf_path(p), float(len(node.order))))
             qs.append(("enumerated-names " + ">>".join(p),
                        'call { private _r = []; for "_k" from 0 to (count (%s)) - 1 do { _r pushBack (configName ((%s) select _k)) }; _r sort true; _r }' % (sqf_path(p), sqf_path(p)),
